@@ -90,7 +90,14 @@ def Ex.subMergers : Ex → List Ex → List (Option SM)
       if subs.any (fun s => e.sameStr s) then
         subs.map (fun s => if e.sameStr s then some (.direct e) else none)
       else (w.subMergers subs).map (fun sm => sm.map (SM.shifted off))
-  | .unary _ w, subs => w.subMergers subs
+  | .unary u w, subs =>
+      -- expr/math.go unaryMathExpr.SubMergers (since the repair of the unary-math sub-mergers):
+      -- an input column that prints like the whole expression is merged as it is (the state of
+      -- LN(x) is the state of x), otherwise the wrapped expression's sub-mergers apply
+      let e := Ex.unary u w
+      if subs.any (fun s => e.sameStr s) then
+        subs.map (fun s => if e.sameStr s then some (.direct e) else none)
+      else w.subMergers subs
 
 /-- `bytetree.New` (/repo 22d56a6): of the input columns with the same printed expression only
     the first is merged into the outputs; the sub-mergers of the later ones are cleared -/
